@@ -18,6 +18,7 @@ PARTS += ["ioload"]       # mir_eval/io.py loaders -> MirGen/IOLoad.lean (C20)
 PARTS += ["chordfns"]
 PARTS += ["chordfns_rotate"]
 PARTS += ["segindex"]
+PARTS += ["utilint"]      # mir_eval/util.py interval pre-processing -> MirGen/UtilInt.lean (C13)
 
 
 def write_if_changed(path, text):
